@@ -299,6 +299,51 @@ class SimEvent:
         return self._flag
 
 
+class SimLock:
+    """threading.Lock stand-in: a blocking acquire parks the caller in the simulator."""
+
+    def __init__(self):
+        self._owner = None
+        self._ev = None
+
+    def acquire(self, blocking=True, timeout=-1):
+        sim = _CURRENT_SIM
+        if self._owner is None:
+            self._owner = sim.cur if sim is not None else True
+            return True
+        if not blocking:
+            return False
+        if sim is None:
+            raise RuntimeError("SimLock contended outside a simulation")
+        while self._owner is not None:
+            if self._ev is None:
+                self._ev = SimEvent()
+            ev = self._ev
+            wake_at = None if timeout is None or timeout < 0 else sim.now + int(round(timeout * 1e6))
+            sim.block(wake_at=wake_at, ev=ev)
+            if self._owner is not None and wake_at is not None and sim.now >= wake_at:
+                return False
+        self._owner = sim.cur
+        return True
+
+    def release(self):
+        self._owner = None
+        ev, self._ev = self._ev, None
+        if ev is not None:
+            ev.set()
+
+    def locked(self):
+        return self._owner is not None
+
+    def __enter__(self):
+        self.acquire()
+        return self
+
+    def __exit__(self, *a):
+        self.release()
+        return False
+
+
 class SimThread:
     def __init__(self, group=None, target=None, name=None, args=(), kwargs=None, *, daemon=None):
         self._target = target
@@ -333,6 +378,7 @@ class SimThreadingModule:
     """Stands in for the `threading` module inside repo modules."""
     Thread = SimThread
     Event = SimEvent
+    Lock = SimLock
 
     def __getattr__(self, name):
         return getattr(_real_threading, name)
